@@ -311,41 +311,121 @@ def _history(item):
     return a, b
 
 
-def fresh_digests(probes):
-    """each probe in a pristine child process (forked from an interpreter that never initialised a value class)"""
+def fresh_map(func_name, items):
+    """props4.<func_name>(item) for each item, each in a pristine child process (forked from an interpreter that imported
+    droop but never initialised a value class); results come back as JSON"""
     code = r'''
 import sys, os, json
 sys.path.insert(0, %r)
 import common, props4
 common.setup_repo_import()
 import droop.election, droop.profile, droop.values
+f = getattr(props4, %r)
 for line in sys.stdin:
-    p, o = json.loads(line)
-    p['lines'] = [(m, r) for m, r in p['lines']]
+    item = json.loads(line)
     r, w = os.pipe()
     pid = os.fork()
     if pid == 0:
         os.close(r)
-        os.write(w, props4.digest_election(p, o).encode())
+        try:
+            out = json.dumps(f(item))
+        except BaseException as e:
+            out = json.dumps('EXC ' + type(e).__name__)
+        os.write(w, out.encode())
         os._exit(0)
     os.close(w)
-    d = os.read(r, 200).decode(); os.close(r); os.waitpid(pid, 0)
-    print(d, flush=True)
-''' % os.path.dirname(os.path.abspath(__file__))
-    data = '\n'.join(json.dumps([p, o]) for p, o in probes) + '\n'
-    k = min(common.NPROC, max(1, len(probes) // 20))
-    size = (len(probes) + k - 1) // k
-    chunks = [probes[i:i + size] for i in range(0, len(probes), size)]
+    buf = b''
+    while True:
+        chunk = os.read(r, 65536)
+        if not chunk:
+            break
+        buf += chunk
+    os.close(r); os.waitpid(pid, 0)
+    print(buf.decode(), flush=True)
+''' % (os.path.dirname(os.path.abspath(__file__)), func_name)
+    if not items:
+        return []
+    k = min(common.NPROC, max(1, len(items) // 20))
+    size = (len(items) + k - 1) // k
+    chunks = [items[i:i + size] for i in range(0, len(items), size)]
     from concurrent.futures import ThreadPoolExecutor
     def one(ch):
-        r = subprocess.run([sys.executable, '-c', code], input='\n'.join(json.dumps([p, o]) for p, o in ch) + '\n',
+        r = subprocess.run([sys.executable, '-c', code], input='\n'.join(json.dumps(x) for x in ch) + '\n',
                            capture_output=True, text=True, cwd=common.VERIF)
         out = r.stdout.split('\n')[:-1]
         if len(out) != len(ch):
             raise RuntimeError('fresh process failed: ' + r.stderr[-400:])
-        return out
+        return [json.loads(x) for x in out]
     with ThreadPoolExecutor(len(chunks)) as ex:
         return [x for part in ex.map(one, chunks) for x in part]
+
+
+def digest_item(item):
+    p, o = item
+    p['lines'] = [(m, r) for m, r in p['lines']]
+    return digest_election(p, o)
+
+
+def fresh_digests(probes):
+    return fresh_map('digest_item', [[p, o] for p, o in probes])
+
+
+def class_snapshot():
+    """the class attributes of the three value classes, canonicalised like the model's showClassState"""
+    import re as _re
+    from droop.values.fixed import Fixed
+    from droop.values.guarded import Guarded
+    from droop.values.rational import Rational
+    def oi(v): return str(v) if (isinstance(v, int) and not isinstance(v, bool)) else 'n'
+    def osx(v): return (v.encode('utf-8').hex() + '.') if isinstance(v, str) else 'n'
+    def raw(v): return oi(getattr(v, '_value', None))
+    def w1(s):
+        m = _re.match(r'%d\.%0(\d+)d$', s or '') if isinstance(s, str) else None
+        return m.group(1) if m else 'n'
+    def w2(s):
+        if not isinstance(s, str): return ('n', 'n')
+        m = _re.match(r'%d\.%0(\d+)d_%0(\d+)d$', s)
+        if m: return (m.group(1), m.group(2))
+        m = _re.match(r'%d\.%0(\d+)d$', s)
+        return (m.group(1), 'n') if m else ('n', 'n')
+    g = lambda c, n: getattr(c, n, None)
+    F = 'F:' + ','.join([osx(Fixed.name), oi(Fixed.precision), oi(Fixed.display), oi(g(Fixed, '_Fixed__scale')), oi(g(Fixed, '_Fixed__scaled')),
+                         oi(g(Fixed, '_Fixed__scaledd')), oi(g(Fixed, '_Fixed__scaledr')), raw(Fixed.epsilon), w1(g(Fixed, '_Fixed__dfmt')), osx(Fixed.info)])
+    wp, wg = w2(g(Guarded, '_Guarded__dfmt'))
+    G = 'G:' + ','.join([oi(Guarded.precision), oi(Guarded.guard), oi(Guarded.display), oi(g(Guarded, '_Guarded__scalep')), oi(g(Guarded, '_Guarded__scaleg')),
+                         oi(g(Guarded, '_Guarded__scale')), oi(g(Guarded, '_Guarded__scaledd')), oi(g(Guarded, '_Guarded__scaledr')),
+                         oi(g(Guarded, '_Guarded__scaled')), oi(g(Guarded, '_Guarded__scaledg')), oi(g(Guarded, '_Guarded__geps')),
+                         oi(g(Guarded, 'maxDiff')), oi(g(Guarded, 'minDiff')), wp, wg, osx(Guarded.info),
+                         '1' if Guarded.quasi_exact else '0', '1' if Guarded.exact else '0', raw(g(Guarded, 'epsilon'))])
+    R = 'R:' + ','.join([oi(Rational.dp), oi(g(Rational, '_dps')), w1(g(Rational, '_dfmt'))])
+    return F + ' ' + G + ' ' + R
+
+
+def session_item(item):
+    """a history of election constructors: outcome class and class snapshot after each (counting in between)"""
+    from droop.profile import ElectionProfile
+    from droop.election import Election
+    from droop.common import UsageError, ElectionError
+    from droop.values import ArithmeticValuesError
+    out = []
+    for cmd, file in item:
+        blt = '3 2\n' + ('[droop %s]\n' % ' '.join(file) if file else '') + '4 1 2 0\n3 2 1 0\n2 3 0\n0\n"A" "B" "C"\n"t"\n'
+        E = None
+        try:
+            E = Election(ElectionProfile(data=blt), dict(cmd)); oc = 'OK'
+        except UsageError: oc = 'UsageError'
+        except ElectionError: oc = 'ElectionError'
+        except ArithmeticValuesError: oc = 'ArithmeticValuesError'
+        except Exception as e: oc = 'CRASH ' + type(e).__name__
+        out.append(oc + ' ' + class_snapshot())
+        if E is not None:
+            try:
+                with contextlib.redirect_stdout(io.StringIO()):
+                    E.count()
+                E.report()
+            except Exception:
+                pass
+    return ' ;; '.join(out)
 
 
 def history_options(rng, rule):
@@ -390,10 +470,49 @@ def C20(run):
                 run.violation(dict(kind='implementation', what='the record depends on earlier elections in the process' if a != f else 'counting the same profile again differs',
                                    history=[dict(blt=gen.blt(p), options=o) for p, o in hist], probe=dict(blt=gen.blt(probe[0]), options=probe[1]),
                                    digest_after_history=a, digest_second_time=b, digest_fresh_process=f))
+    # the class-state model (lean/DroopModel/Session.lean) against the real class attributes, history by history
+    import props3
+    sess = []
+    for _ in range(budget(run, 3000, 60000)):
+        h = []
+        for _ in range(rng.randint(1, 5)):
+            cmd, file = props3.gen_layers(rng)
+            if rng.random() < 0.6:
+                cmd['rule'] = rng.choice(['wigm', 'meek', 'warren', 'wigm', rng.choice(gen.RULES)])
+            h.append([cmd, file])
+        sess.append(h)
+    simpl = fresh_map('session_item', sess)
+    sins = ['SESSION ' + ' ;; '.join(' '.join('%s=%s' % (props3.hx(k), props3.ov(v)) for k, v in c.items()) + ' | ' + ' '.join(props3.hx(t) for t in f)
+                                        for c, f in h) for h in sess]
+    smodel = common.run_driver_parallel(sins)
+    ncorr = 0; firstc = None
+    def nostats(line):
+        # Guarded.maxDiff / minDiff are statistics of every comparison executed since initialize(): not compared with the model
+        out = []
+        for part in line.split(' ;; '):
+            f = part.split(' ')
+            for i, x in enumerate(f):
+                if x.startswith('G:'):
+                    g = x.split(','); g[11] = g[12] = '-'; f[i] = ','.join(g)
+            out.append(' '.join(f))
+        return ' ;; '.join(out)
+    for h, a, b, ln in zip(sess, simpl, smodel, sins):
+        a = nostats(a); b = nostats(b)
+        if a != b:
+            ncorr += 1
+            if firstc is None:
+                d = next(((x, y) for x, y in zip(a.split(' ;; '), b.split(' ;; ')) if x != y), (a[:300], b[:300]))
+                firstc = dict(history=h, implementation=d[0], model=d[1], case=ln)
+    if ncorr and not run.violations:
+        firstc.update(kind='correspondence', broken=['correspondence SESSION (lean/DroopModel/Session.lean vs the class attributes of droop/values/*)'],
+                      disagreeing_cases=ncorr)
+        run.violation(firstc, 'no-failing-input-found')
     if broken and not run.violations:
         run.violation(dict(kind='theorem', broken=broken), 'no-failing-input-found')
     cov = run.coverage
-    cov['evaluations'] = len(items)
+    cov['evaluations'] = len(items) + len(sess)
+    cov['class_state_histories_compared_with_model'] = len(sess)
+    cov['traces_validated_against_impl'] = len(sess) - ncorr
     cov['distinct_nontrivial'] = len({json.dumps([h, p], default=str) for h, p in items})
     cov['rule'] = ('history = 1-4 (thorough: 1-8) elections of random rule/arithmetic/precision/display (some failing to initialise) run back to back in one '
                    'process, then the probe election twice; sha256 of report+dump+JSON compared with the same probe in a pristine forked interpreter; '
